@@ -74,8 +74,18 @@ def fresh(rng):
     return ('t', k)
 
 
+def equal_copy(x):
+    if isinstance(x, tuple):
+        return tuple(list(x))
+    if isinstance(x, float):
+        return float(repr(x))
+    if isinstance(x, int):
+        return int(str(x))
+    return ''.join(list(x))
+
+
 LIST_OPS = ['setitem_i', 'append', 'insert', 'extend', 'pop_i', 'pop_last', 'remove', 'clear', 'replace',
-            'assign', 'assign_bad']
+            'assign', 'assign_bad', 'iadd', 'self_assign']
 DICT_OPS = ['setitem_new', 'setitem_existing', 'update', 'update_kw', 'pop_key', 'remove', 'clear', 'replace',
             'assign', 'assign_bad']
 
@@ -85,7 +95,7 @@ def run_case(idx, rng, P, rep):
     kind = rng.choice(['Selector', 'ListSelector'])
     style = rng.choice(['list', 'dict'])
     level = rng.choice(['class', 'instance'])
-    n0 = rng.randint(1, 4)
+    n0 = rng.randint(1, 4) if rng.random() < 0.8 else 0      # also selectors declared without any object
     objs = [fresh(rng) for _ in range(n0)]
     names = [f'k{i}_{rng.randrange(1000)}' for i in range(n0)]
     model_objs = list(objs)
@@ -97,20 +107,32 @@ def run_case(idx, rng, P, rep):
     # (un-named for dict-declared selectors); everything else must keep describing the same objects
     kw = dict(objects=decl, check_on_set=strict)
     if kind == 'ListSelector':
-        kw['default'] = [objs[0]]
+        kw['default'] = [objs[0]] if objs else []
     cls = type(f'S{idx}', (param.Parameterized,), {'sel': ptype(**kw), 'other': param.Parameter()})
     inst = cls()
+    # bystanders of an instance-level history: the class-level Parameter and another instance's Parameter copy
+    # (made before the history starts) must keep describing the declared objects
+    bystanders = []
+    if level == 'instance':
+        other_inst = cls()
+        bystanders = [('class', cls.param.sel), ('other instance', other_inst.param.sel)]
     log = []
+
+    seen_at_notification = []
 
     def cb(*events):
         log.append([(e.name, e.what, e.type) for e in events])
+        # what the Selector shows at the moment its watchers are told about the mutation
+        seen_at_notification.append(list(holder[0].objects))
 
+    holder = [None]
     if level == 'class':
         p = cls.param.sel
         cls.param.watch(cb, 'sel', what='objects', onlychanged=False)
     else:
         p = inst.param.sel
         inst.param.watch(cb, 'sel', what='objects', onlychanged=False)
+    holder[0] = p
 
     ops_done = []
     trace = []
@@ -139,6 +161,13 @@ def run_case(idx, rng, P, rep):
             cls().sel = v
 
     def verify(op):
+        for who, bp in bystanders:
+            rep.count('bystander_checks')
+            bl = list(bp.objects)
+            if len(bl) != len(objs) or any(a is not b for a, b in zip(bl, objs)):
+                viol('leaked-to-bystander', f'the {who} Parameter now lists {bl!r}, it was declared with {objs!r}', op)
+            if style == 'dict' and list((bp.names or {}).items()) != list(zip(names, objs)):
+                viol('leaked-to-bystander', f'the {who} Parameter now has names {dict(bp.names or {})!r}', op)
         lv = list(p.objects)
         if len(lv) != len(model_objs) or any(a is not b for a, b in zip(lv, model_objs)):
             viol('list-view', f'list(objects)={lv!r} model={model_objs!r}', op)
@@ -223,6 +252,17 @@ def run_case(idx, rng, P, rep):
                 trace.append((op, xs))
                 o.extend(xs)
                 model_objs.extend(xs)
+            elif op == 'iadd':
+                # the augmented-assignment idiom: extends a proxy and assigns it back (a wholesale replacement)
+                xs = [fresh(rng) for _ in range(rng.randint(1, 2))]
+                trace.append((op, xs))
+                p.objects += xs
+                model_objs.extend(xs)
+                proxy[0] = None
+            elif op == 'self_assign':
+                trace.append((op,))
+                p.objects = p.objects if rng.random() < 0.5 else o
+                proxy[0] = None
             elif op == 'pop_i':
                 if n == 0:
                     continue
@@ -244,8 +284,13 @@ def run_case(idx, rng, P, rep):
                 if n == 0:
                     continue
                 x = rng.choice(model_objs)
-                trace.append((op, x))
-                o.remove(x)
+                arg = x
+                if rng.random() < 0.4:
+                    # an equal object that is not the stored one (a float / tuple / str computed again)
+                    arg = equal_copy(x)
+                    rep.count('remove_by_equal_object')
+                trace.append((op, arg))
+                o.remove(arg)
                 model_objs.remove(x)
                 if model_names is not None:
                     for k in [k for k, v in model_names.items() if v is x]:
@@ -298,8 +343,12 @@ def run_case(idx, rng, P, rep):
                 trace.append((op, dict(upd)))
                 if op == 'update':
                     o.update(dict(upd) if rng.random() < 0.5 else list(upd.items()))
-                else:
+                elif rng.random() < 0.5:
                     o.update({}, **upd)
+                else:
+                    ks = list(upd)
+                    cut = rng.randint(0, len(ks))
+                    o.update({k: upd[k] for k in ks[:cut]}, **{k: upd[k] for k in ks[cut:]})
                 for k, x in upd.items():
                     if k in model_names:
                         i = [j for j, v in enumerate(model_objs) if v is model_names[k]][0]
@@ -364,6 +413,11 @@ def run_case(idx, rng, P, rep):
                 viol('watcher-count', f'objects watcher notified {delta} times for one {op}', op)
             elif log[-1][0][1] != 'objects' or log[-1][0][0] != 'sel':
                 viol('watcher-event', f'objects watcher got {log[-1]}', op)
+            else:
+                shown = seen_at_notification[-1]
+                if len(shown) != len(model_objs) or any(a is not b for a, b in zip(shown, model_objs)):
+                    viol('watcher-sees-incomplete-mutation', f'when the objects watcher was notified the Selector showed {shown!r}, the '
+                         f'mutation produces {model_objs!r}', op)
         elif op != 'assign_new':
             if len(log) != before_log:
                 viol('watcher-count', f'objects watcher notified by a value assignment ({op})', op)
